@@ -303,7 +303,7 @@ _base_cache = {}
 
 
 def base_axioms():
-    key = (len(_lit_cache), len(_list_fns), len(_bag_size))
+    key = (len(_lit_cache), len(_list_fns), len(_bag_size), len(_list_contains))
     if key not in _base_cache:
         _base_cache.clear()
         _base_cache[key] = _base_axioms()
@@ -379,6 +379,7 @@ def _base_axioms():
     ax.extend(lit_axioms())
     ax.extend(list_axioms())
     ax.extend(bag_axioms())
+    ax.extend(contains_axioms())
     return ax
 
 
@@ -563,6 +564,15 @@ def list_axioms():
             out.append(z3.ForAll([l, a, b, j], z3.Implies(z3.And(ok, 0 <= j, j < b - a),
                                                          z3.Select(sh.arr(r), j) == z3.Select(sh.arr(l), a + j)),
                                  patterns=[z3.Select(sh.arr(r), j)]))
+        elif name == 'linsert':
+            x = z3.Const('x!la', sh.elem.sort())
+            r = f(l, a, x)
+            ok = z3.And(0 <= a, a <= sh.len(l))
+            out.append(z3.ForAll([l, a, x], z3.Implies(ok, sh.len(r) == sh.len(l) + 1), patterns=[f(l, a, x)]))
+            out.append(z3.ForAll([l, a, x, j], z3.Implies(z3.And(ok, 0 <= j, j <= sh.len(l)),
+                                                         z3.Select(sh.arr(r), j) == z3.If(j < a, z3.Select(sh.arr(l), j),
+                                                                                          z3.If(j == a, x, z3.Select(sh.arr(l), j - 1)))),
+                                 patterns=[z3.Select(sh.arr(r), j)]))
         elif name == 'lcat':
             r = f(l, m)
             ok = z3.And(sh.len(l) >= 0, sh.len(m) >= 0)
@@ -581,3 +591,29 @@ _orig_list_fn = list_fn
 def list_fn(name, list_shape, extra_sorts):   # noqa: F811
     _list_shapes[list_shape.key()] = list_shape
     return _orig_list_fn(name, list_shape, extra_sorts)
+
+
+_list_contains = {}
+
+
+def list_contains(list_shape):
+    """x in xs, with a witness index function so that both polarities are usable."""
+    k = list_shape.key()
+    if k not in _list_contains:
+        c = z3.Function('lcontains_' + _san(k), list_shape.sort(), list_shape.elem.sort(), BoolS)
+        w = z3.Function('lwitness_' + _san(k), list_shape.sort(), list_shape.elem.sort(), IntS)
+        _list_contains[k] = (c, w, list_shape)
+    return _list_contains[k][0]
+
+
+def contains_axioms():
+    out = []
+    for k, (c, w, sh) in _list_contains.items():
+        l = z3.Const('l!lc', sh.sort())
+        x = z3.Const('x!lc', sh.elem.sort())
+        j = z3.Int('j!lc')
+        out.append(z3.ForAll([l, x], z3.Implies(c(l, x), z3.And(0 <= w(l, x), w(l, x) < sh.len(l),
+                                                               z3.Select(sh.arr(l), w(l, x)) == x)), patterns=[c(l, x)]))
+        out.append(z3.ForAll([l, x, j], z3.Implies(z3.And(0 <= j, j < sh.len(l), z3.Select(sh.arr(l), j) == x), c(l, x)),
+                             patterns=[z3.MultiPattern(c(l, x), z3.Select(sh.arr(l), j))]))
+    return out
